@@ -5,6 +5,7 @@ mod golden;
 mod lega;
 mod legc;
 mod libdump;
+mod replay;
 
 use std::path::PathBuf;
 
@@ -73,6 +74,8 @@ fn main() {
         "legC" => legc::run(&opts),
         "libdump" => libdump::run(&opts),
         "c15" => c15::run(&opts),
+        "replay" => replay::run(&opts, false),
+        "minimise" => replay::run(&opts, true),
         other => {
             eprintln!("unknown subcommand {other}");
             2
